@@ -109,6 +109,17 @@ type c14Case struct {
 	Hex    string `json:"input_hex,omitempty"`
 	Text   string `json:"text,omitempty"`
 	IsText bool   `json:"is_text,omitempty"`
+	Logger string `json:"library_logger_level,omitempty"` // "trace": run with the library's diagnostics on
+}
+
+var c14TraceMode bool
+
+func c14Mk(h *c14Helper, hex string) c14Case {
+	cs := c14Case{Helper: h.name, Hex: hex}
+	if c14TraceMode {
+		cs.Logger = "trace"
+	}
+	return cs
 }
 
 func c14Find(name string) *c14Helper {
@@ -125,11 +136,20 @@ func c14Exec(c *core.Ctx, in c14Case) {
 	if h == nil {
 		return
 	}
-	if in.IsText {
-		c14RunText(c, h, in.Text)
-	} else {
-		c14RunBytes(c, h, unhex(in.Hex))
+	run := func() {
+		if in.IsText {
+			c14RunText(c, h, in.Text)
+		} else {
+			c14RunBytes(c, h, unhex(in.Hex))
+		}
 	}
+	if in.Logger == "trace" {
+		c14TraceMode = true
+		defer func() { c14TraceMode = false }()
+		withTraceLogging(run)
+		return
+	}
+	run()
 }
 
 func c14RunBytes(c *core.Ctx, h *c14Helper, b []byte) {
@@ -139,7 +159,7 @@ func c14RunBytes(c *core.Ctx, h *c14Helper, b []byte) {
 	c.Distinct(core.Hash64(h.name, b), len(b) > h.min && len(b) >= 2)
 	below := len(b) < h.min
 	in := append([]byte{}, b...)
-	c.SetSub("helper", func() any { return c14Case{Helper: h.name, Hex: hexs(in)} }) // a hang is reported with this input
+	c.SetSub("helper", func() any { return c14Mk(h, hexs(in)) }) // a hang is reported with this input
 	pi := core.Try(func() { h.fn(in) })
 	if pi == nil {
 		return
@@ -150,7 +170,7 @@ func c14RunBytes(c *core.Ctx, h *c14Helper, b []byte) {
 		c.Seen("below_minimum_panics", h.name+"@"+pi.Site)
 		return
 	}
-	c.FailCase(h.name+"|"+pi.Key(), fmt.Sprintf("%s panics on the %d-octet contents %x: %s", h.name, len(b), clip(b), pi.Msg), "helper", c14Case{Helper: h.name, Hex: hexs(b)})
+	c.FailCase(h.name+"|"+pi.Key(), fmt.Sprintf("%s panics on the %d-octet contents %x: %s", h.name, len(b), clip(b), pi.Msg), "helper", c14Mk(h, hexs(b)))
 }
 
 func c14RunText(c *core.Ctx, h *c14Helper, s string) {
@@ -376,6 +396,22 @@ func c14Run(c *core.Ctx) {
 					run(m)
 				}
 			}
+			// diagnostics on: the truncations and a 13-value replacement at every position again with the library logger at
+			// trace level (code that only runs when an application has turned logging up)
+			c14TraceMode = true
+			withTraceLogging(func() {
+				for cut := 0; cut <= len(seed); cut++ {
+					run(seed[:cut])
+				}
+				for pos := 0; pos < len(seed); pos++ {
+					for _, v := range []byte{0x00, 0x01, 0x02, 0x05, 0x0F, 0x15, 0x7F, 0x80, 0xC0, 0xF0, 0xF2, 0xFE, 0xFF} {
+						m := append([]byte{}, seed...)
+						m[pos] = v
+						run(m)
+					}
+				}
+			})
+			c14TraceMode = false
 			// a valid prefix of every length followed by a constant-filled tail of every length up to 24
 			for k := 0; k <= len(seed) && k <= 20; k++ {
 				for _, fill := range []byte{0x00, 0xFF, 0x0F, 0xF0, 0x99} {
@@ -526,7 +562,7 @@ func init() {
 			if tier == "thorough" {
 				l3 = "every byte string of length 3 (all 2^24)"
 			}
-			return "per helper (35 byte-input helpers incl. the nasType.MobileIdentity5GS / DNN text getters, 4 text-input variants): every byte string of length 0..2, " + l3 + ", every string of length 4..6 (7 thorough) over an 8-value branch-constant alphabet, every string of length 4 (thorough: 5) over the alphabet read from the helper's current source (every integer literal 0..255 and character literal of the nasConvert package resp. the element's file, plus the fixed alphabet), lengths up to 12 (24) as identity-type octet x fill x single deviation, and the <=2-mutation neighbourhood (every truncation, every single-octet replacement by all 256 values, deletions, insertions, pairs of replacements, every valid prefix followed by a constant-filled tail of 1..24 octets) of 12 valid encodings, and the unit-repetition family (n copies of a length-prefixed unit of 0, 1, 2, 3, 4, 5 or 8 octets — every n that fits into 255 octets, thinned above 40 in the quick tier — followed by 0..2 copies of each other unit, bare, behind a leading 00 / 01 octet, and cut one octet short: limits that depend on the number of entries); text variants over all strings of length <=3 over {0,9,a,f,g,-,é} and <=2 mutations of valid texts. Oracle: returns without panic (recover), terminates and stays within the heap limit (worker watchdog). Element-typed helpers are judged on lengths the decoders can deliver; shorter inputs are counted separately."
+			return "per helper (35 byte-input helpers incl. the nasType.MobileIdentity5GS / DNN text getters, 4 text-input variants): every byte string of length 0..2, " + l3 + ", every string of length 4..6 (7 thorough) over an 8-value branch-constant alphabet, every string of length 4 (thorough: 5) over the alphabet read from the helper's current source (every integer literal 0..255 and character literal of the nasConvert package resp. the element's file, plus the fixed alphabet), lengths up to 12 (24) as identity-type octet x fill x single deviation, and the <=2-mutation neighbourhood (every truncation, every single-octet replacement by all 256 values, deletions, insertions, pairs of replacements, every valid prefix followed by a constant-filled tail of 1..24 octets) of 12 valid encodings (truncations and a 13-value replacement at every position also with the library logger at trace level), and the unit-repetition family (n copies of a length-prefixed unit of 0, 1, 2, 3, 4, 5 or 8 octets — every n that fits into 255 octets, thinned above 40 in the quick tier — followed by 0..2 copies of each other unit, bare, behind a leading 00 / 01 octet, and cut one octet short: limits that depend on the number of entries); text variants over all strings of length <=3 over {0,9,a,f,g,-,é} and <=2 mutations of valid texts. Oracle: returns without panic (recover), terminates and stays within the heap limit (worker watchdog). Element-typed helpers are judged on lengths the decoders can deliver; shorter inputs are counted separately."
 		},
 		Assumptions: []string{
 			"element-typed helpers (MobileIdentity5GS getters: >= 4 octets, DNN: >= 1, fixed-size time elements) are judged on decoder-deliverable lengths only",
